@@ -118,7 +118,7 @@ OnSubtree(K, NS, n, F(_)) == [m \in DOMAIN NS |-> IF m \in Desc(K, n) THEN F(NS[
 AddNamespaceNS(K, NS, n, q, u) == OnSubtree(K, NS, n, LAMBDA m : NsSet(m, q, u))
 RemoveNamespaceNS(K, NS, n, q) == OnSubtree(K, NS, n, LAMBDA m : NsDel(m, q))
 (* What attaching c under p does to namespace maps.  JUDGED: c sees NsMerge(ns[p], ns[c]);
-   every proper descendant of c sees at least c's prefixes; nothing outside Desc(c) changes.
+   nothing outside Desc(c) changes.
    MODELLED BUT NOT JUDGED (the property is silent): the exact maps below c -- the code pushes
    each binding that c lacked down the whole subtree, overriding what a descendant had. *)
 AttachNS(K, NS, p, c) ==
